@@ -3,8 +3,9 @@
    one that really occurred in this call; once the exception event is set, the stored exception main
    waits for always arrives; and no state is stuck as long as blocking functions have a timeout. *)
 From Coq Require Import List Arith Lia Bool String.
-From Mpv Require Import GenAsync GenStruct OrderHist Apply ApplyProofs Fail.
+From Mpv Require Import GenAsync GenStruct GenObserve OrderHist Apply ApplyProofs Fail.
 Import ListNotations.
+Close Scope string_scope.
 Close Scope Z_scope.
 Open Scope nat_scope.
 
@@ -17,7 +18,9 @@ Lemma handle_exception_spec : handle_exception_waits_for_named_job = true. Proof
 Lemma stored_reset_spec : stored_exceptions_reset_when_workers_start = true. Proof. vm_compute. reflexivity. Qed.
 Lemma finit_stale_eq stale scripts : finit_stale stale scripts = finit scripts.
 Proof. unfold finit_stale, finit. rewrite stored_reset_spec. reflexivity. Qed.
-Ltac ffacts := rewrite ?raise_order_spec, ?run_safely_first_spec, ?broadcast_init_spec, ?death_order_spec, ?timeout_order_spec,
+Lemma drains_spec : terminate_drains_queues_completely = true. Proof. vm_compute. reflexivity. Qed.
+Lemma waits_spec : dispatch_waits_stop_on_exception = true. Proof. vm_compute. reflexivity. Qed.
+Ltac ffacts := rewrite ?drains_spec, ?waits_spec, ?raise_order_spec, ?run_safely_first_spec, ?broadcast_init_spec, ?death_order_spec, ?timeout_order_spec,
   ?handle_exception_spec in *.
 
 Lemma jid_eqb_refl j : jid_eqb j j = true. Proof. destruct j; reflexivity. Qed.
